@@ -9,7 +9,12 @@ package handshake
 //symgo:assume the 32 random bytes of ClientHello are fixed to zero in zzDecHsClientHelloNoPanic (they are only copied, no branch reads them); ServerHello keeps them symbolic because the HelloRetryRequest magic value is compared
 
 import (
+	"errors"
+
+	dtlserrors "github.com/pion/dtls/v3/internal/errors"
+	"github.com/pion/dtls/v3/pkg/protocol"
 	"github.com/pion/dtls/v3/pkg/protocol/extension"
+	extension13 "github.com/pion/dtls/v3/pkg/protocol/extension/dtls13"
 )
 
 // zzDecHsAssumeSmallCipherSuiteCount restricts the cipher_suites length field (found after session id and
@@ -169,4 +174,93 @@ func zzDecHsExtensionContextNoPanic() {
 		}
 	}
 	zzsymCover("ctx_ok_" + tag)
+}
+
+// zzDecHsExt frames one extension (RFC 8446 §4.2: type, length, data).
+func zzDecHsExt(list []byte, typ extension.Type, payload []byte) []byte {
+	list = append(list, byte(typ>>8), byte(typ), byte(len(payload)>>8), byte(len(payload)))
+	return append(list, payload...)
+}
+
+// ClientHello extension block made of well-framed extensions whose presence is chosen freely (supported_versions
+// with one version, supported_groups with two groups, key_share with two 1-byte shares, signature_algorithms,
+// connection_id, return_routability_check, psk_key_exchange_modes, early_data, and a pre_shared_key placed first
+// or last) and whose payload values (version, groups, share groups, keys, scheme, mode) are arbitrary: the
+// cross-extension dependency checks of decodeExtensionList (duplicate groups, key_share order against
+// supported_groups, DTLS 1.3 mandatory sets, rrc-needs-cid, early_data/psk rules, psk-last) run on hostile
+// values: no panic, loops end; each rejection class and the accepting DTLS 1.3 offer are reached.
+//
+//symgo:entry covers=dep_ok,dep_ok_13,dep_keyshare_not_offered,dep_dup_group,dep_psk_not_last,dep_missing_13_ext,dep_groups_without_keyshare,dep_keyshare_without_groups,dep_rrc_without_cid,dep_early_data_without_psk,dep_psk_without_modes
+func zzDecHsClientHelloDependencies() {
+	var list []byte
+	pskPos := zzsymChoice("psk", 3) // absent, first, last
+	// smallest well-formed offer: one 1-byte identity, obfuscated age, one 32-byte binder (RFC 8446 §4.2.11)
+	pskPayload := append([]byte{0, 7, 0, 1, 0x41, 0, 0, 0, 0, 0, 33, 32}, make([]byte, 32)...)
+	if pskPos == 1 {
+		list = zzDecHsExt(list, extension.TypePreSharedKey, pskPayload)
+	}
+	hasVersions := zzsymChoice("versions", 2) == 1
+	if hasVersions {
+		v := zzsymBytes("version", 2)
+		list = zzDecHsExt(list, extension.TypeSupportedVersions, []byte{2, v[0], v[1]})
+	}
+	if zzsymChoice("groups", 2) == 1 {
+		g := zzsymBytes("groups", 4)
+		list = zzDecHsExt(list, extension.TypeSupportedGroups, []byte{0, 4, g[0], g[1], g[2], g[3]})
+	}
+	if zzsymChoice("keyshare", 2) == 1 {
+		k := zzsymBytes("shares", 6)
+		list = zzDecHsExt(list, extension.TypeKeyShare, []byte{0, 10, k[0], k[1], 0, 1, k[2], k[3], k[4], 0, 1, k[5]})
+	}
+	if zzsymChoice("sigalgs", 2) == 1 {
+		sa := zzsymBytes("scheme", 2)
+		list = zzDecHsExt(list, extension.TypeSignatureAlgorithms, []byte{0, 2, sa[0], sa[1]})
+	}
+	if zzsymChoice("cid", 2) == 1 {
+		list = zzDecHsExt(list, extension.TypeConnectionID, []byte{0})
+	}
+	if zzsymChoice("rrc", 2) == 1 {
+		list = zzDecHsExt(list, extension.TypeReturnRoutabilityCheck, nil)
+	}
+	if zzsymChoice("pskmodes", 2) == 1 {
+		list = zzDecHsExt(list, extension.TypePSKKeyExchangeModes, []byte{1, zzsymU8("mode")})
+	}
+	if zzsymChoice("earlydata", 2) == 1 {
+		list = zzDecHsExt(list, extension.TypeEarlyData, nil)
+	}
+	if pskPos == 2 {
+		list = zzDecHsExt(list, extension.TypePreSharedKey, pskPayload)
+	}
+	data := append([]byte{byte(len(list) >> 8), byte(len(list))}, list...)
+	vals, err := decodeExtensionList(data, extensionContextClientHello)
+	if err == nil {
+		zzsymAssert(4*len(vals) <= len(list), "extension_count_bounded_by_length")
+		for _, v := range vals {
+			if ov, ok := v.(*extension13.OfferedVersions); ok {
+				if ov.Versions[0] == protocol.Version1_3 {
+					zzsymCover("dep_ok_13")
+				}
+			}
+		}
+		zzsymCover("dep_ok")
+		return
+	}
+	for _, c := range []struct {
+		err   error
+		label string
+	}{
+		{dtlserrors.ErrKeyShareGroupNotOffered, "dep_keyshare_not_offered"},
+		{dtlserrors.ErrDuplicateSupportedGroup, "dep_dup_group"},
+		{dtlserrors.ErrPreSharedKeyNotLast, "dep_psk_not_last"},
+		{dtlserrors.ErrMissingClientHelloExtension, "dep_missing_13_ext"},
+		{dtlserrors.ErrSupportedGroupsWithoutKeyShare, "dep_groups_without_keyshare"},
+		{dtlserrors.ErrKeyShareWithoutSupportedGroups, "dep_keyshare_without_groups"},
+		{dtlserrors.ErrMissingConnectionIDExtension, "dep_rrc_without_cid"},
+		{dtlserrors.ErrEarlyDataWithoutPreSharedKey, "dep_early_data_without_psk"},
+		{dtlserrors.ErrMissingPSKKeyExchangeModesExtension, "dep_psk_without_modes"},
+	} {
+		if errors.Is(err, c.err) {
+			zzsymCover(c.label)
+		}
+	}
 }
